@@ -227,7 +227,7 @@ class BaseData:
 
         table_columns = self.get_normalized_table_columns_names()
         # add columns from 'alter add'
-        for column in self.alter["columns"]:
+        for column in alter_columns:
             if normalize_name(column["name"]) not in table_columns:
                 self.columns.append(column)
 
